@@ -120,7 +120,35 @@ class Gen:
                 if len(scal) == len(self.env[v][1]):
                     self.emit("dbtp %s.first" % v, union(scal + ["NilClass"]), "OptionalUnify")
                     self.emit("dbtp %s" % v, self.env[v], "receiver after first")
+            elif arrs and pick < 0.62:
+                v = r.choice(sorted(arrs))
+                scal = [e for e in self.env[v][1] if isinstance(e, str)]
+                if len(scal) == len(self.env[v][1]):
+                    which = r.choice(["uniq", "at", "last", "last1", "shift", "dup"])
+                    if which == "uniq":
+                        self.emit("dbtp %s.uniq" % v, self.env[v], "Self")
+                    elif which == "at":
+                        self.emit("dbtp %s.at(0)" % v, union(scal + ["NilClass"]), "OptionalUnify")
+                    elif which == "last":
+                        self.emit("dbtp %s.last" % v, union(scal + ["NilClass"]), "conditional OptionalUnify")
+                    elif which == "last1":
+                        self.emit("dbtp %s.last(1)" % v, self.env[v], "conditional Self")
+                    elif which == "dup":
+                        self.emit("dbtp %s.dup" % v, self.env[v], "Self")
+                    else:
+                        self.emit("dbtp %s.shift" % v, union(scal), "conditional Unify")
+                    self.emit("dbtp %s" % v, self.env[v], "receiver after a call")
+            elif self.hashes and pick < 0.7:
+                v = r.choice(sorted(self.hashes))
+                vals = elems(list(self.hashes[v].values()))
+                if r.random() < 0.5:
+                    self.emit("dbtp %s.values" % v, ("Array", vals), "KeyValueArray")
+                else:
+                    self.emit("dbtp %s.delete(:%s)" % (v, r.choice(sorted(self.hashes[v]))), union(vals + ["NilClass"]), "Union<Unify NilClass>")
             elif pick < 0.75:
+                self.emit("dbtp (1..3).first", union(["Integer", "NilClass"]), "conditional OptionalUnify")
+                self.emit("dbtp (1..3).first(2)", ("Array", ["Integer"]), "conditional SelfArray")
+            elif pick < 0.8:
                 self.emit('dbtp "s".upcase', "String", "declared return")
                 self.emit("dbtp 1.to_s", "String", "declared return")
             else:
